@@ -120,11 +120,46 @@ def generate(rng, prop, tier):
         ops, faults = _gen_des(rng, cfg, max_dt, t0, long)
     else:
         ops, faults = _gen_adv(rng, cfg, max_dt, t0, long)
+    ops = _cap_cost(ops, cfg, max_dt, t0, 400_000 if long else 150_000)
     # final probe ticks: observe what is held without readings (twice: the first must not change what the second returns)
     last = xf(ops[-1]["t_out"]) if ops else t0
     for d in (rng.uniform(-2, 2) * max_dt, rng.uniform(0, 3) * max_dt):
         ops.append({"op": "tick", "t_out": fx(last + d), "control": 7 if cfg["has_control"] else None, "readings": [], "faults": ["probe_tick"]})
     return {"config": cfg, "init": init, "ops": ops, "faults": faults}
+
+
+def _cap_cost(ops, cfg, max_dt, t0, cap):
+    """bound the cost of one run: the number of process-model steps a faithful runtime needs for this history (a skewed
+    sensor stamped 1 s off with a 1 ms step costs a thousand steps per reading and direction).  The history is cut (whole
+    ticks from the end, then readings of the last tick) where the estimate passes the cap -- a run is a few seconds, not minutes."""
+    if cfg.get("sibling_max_dt_index") is not None:
+        max_dt = min(max_dt, MAXDT_MENU[cfg["sibling_max_dt_index"]])  # the sibling walks through the same times with its own step
+    held, total, out = t0, 0.0, []
+    for op in ops:
+        rd = op.get("readings") or []
+        if cfg["has_control"] and op["control"] is None:
+            out.append(op)
+            continue
+        cur, kept = held, []
+        for r in rd:  # list order: the costlier of the two orders a runtime may use (sorted order never moves further)
+            c = abs(xf(r["t"]) - cur) / max_dt + 1
+            if total + c > cap:
+                break
+            total += c
+            cur = xf(r["t"])
+            kept.append(r)
+        if len(kept) < len(rd):
+            out.append(dict(op, readings=kept, t_out=fx(cur), faults=op["faults"] + ["probe:cost_capped"]))
+            return out
+        c = abs(xf(op["t_out"]) - cur) / max_dt + 1
+        if total + c > cap:
+            out.append(dict(op, t_out=fx(cur), faults=op["faults"] + ["probe:cost_capped"]))
+            return out
+        total += c
+        out.append(op)
+        if rd:
+            held = cur
+    return out
 
 
 def _gen_des(rng, cfg, max_dt, t0, long):
@@ -535,6 +570,9 @@ def check_leg(schedule, plan, ticks, leg, res: Result):
         res.ops += 1
         res.stats["calls"] += len(calls)
         for f in op.get("faults", []):
+            if f.startswith("probe:"):
+                res.stats[f] += 1
+                continue
             res.stats["fault:" + f.split(":")[0] + (":" + f.split(":")[1] if f.startswith("boundary") else "")] += 1
         for r in rd:
             for f in r.get("faults", []):
